@@ -42,9 +42,10 @@ Definition hinit (cfg : list N) : option hst :=
   | _ => None
   end.
 
-(* eager schedule: blocked instances that can go on do so (ascending: the chains only point backwards) *)
+(* eager schedule: a timer that is due fires at once (time.AfterFunc with a zero duration: a zero back-off), and
+   blocked instances that can go on do so (ascending: the chains only point backwards) *)
 Definition settle (s : st) : st :=
-  fold_left (fun s i => wake repaired s i true) (seq 0 (length (insts s))) s.
+  fold_left (fun s i => wake repaired s i true) (seq 0 (length (insts s))) (advance s 0).
 
 Definition icode (x : inst) : list N :=
   let k := N.of_nat (ikey x) in
